@@ -245,4 +245,11 @@ Qed.
 Theorem ABS_concrete_is_abs c a (s : StA) : do_ABS_concrete F r32 c a s = do_abs F r32 c a s.
 Proof. reflexivity. Qed.
 
+Theorem abs_both_indep c c' a (s : StA) :
+  rk (s c) = rk (s c') -> shape (s c) -> shape (s c') ->
+  sign_of F (rval (rd s a)) <> 0%Z ->
+  agree c c' (exec F r32 (IAbs c a) s) (exec F r32 (IAbs c' a) s) /\
+  agree c c' (exec F r32 (IABSc c a) s) (exec F r32 (IABSc c' a) s).
+Proof. intros. split; apply abs_indep; assumption. Qed.
+
 End SetOp.
